@@ -760,6 +760,16 @@ iter_cb(struct trec * r)
 	iter_calls++;
 }
 
+/*
+ * A callback which shrinks the very array that is being iterated (re-entrancy):
+ * when called for record number sh_at it removes sh_by records from the end.
+ * The iteration must then stop at the new end.
+ */
+static void * sh_ea;
+static size_t sh_at, sh_by, sh_seen;
+
+static void iter_shrink_cb(struct trec * r);
+
 struct tarr {
 	TRECS EA;
 	struct trec * m;
@@ -769,6 +779,16 @@ struct tarr {
 	size_t lastcap;
 	int excused;
 };
+
+static void
+iter_shrink_cb(struct trec * r)
+{
+
+	r->gen = (uint16_t)(r->gen + 1);
+	iter_calls++;
+	if (sh_seen++ == sh_at)
+		trecs_shrink((TRECS)sh_ea, sh_by);
+}
 
 static void
 tm_setn(struct tarr * T, size_t n)
@@ -902,7 +922,7 @@ hist_typed(uint64_t seed, size_t nops, size_t maxr)
 {
 	struct vh_rng R;
 	struct tarr T;
-	uint64_t sig = 0, c_grow = 0, c_shrink = 0, c_iter = 0, c_export = 0;
+	uint64_t sig = 0, c_grow = 0, c_shrink = 0, c_iter = 0, c_export = 0, c_iter_shrink = 0;
 	size_t live0 = wa_live_count();
 	size_t i;
 	void * tf;
@@ -1016,6 +1036,26 @@ hist_typed(uint64_t seed, size_t nops, size_t maxr)
 			trand(&R, p);
 			T.m[pos] = *p;
 			T.k[pos] = 1;
+		} else if (op < 84 && nb >= 3 && vh_chance(&R, 1, 3)) {
+			uint64_t before = iter_calls;
+
+			sh_ea = T.EA;
+			sh_at = vh_below(&R, nb - 1);
+			sh_by = 1 + vh_below(&R, nb - sh_at - 1);	/* the current record stays */
+			sh_seen = 0;
+			snprintf(opdesc, sizeof(opdesc), "trecs_iter at %zu, callback %zu shrinks by %zu",
+			    nb, sh_at, sh_by);
+			sig = vh_fnv_u64(sig, (13ULL << 56) ^ sh_at);
+			trecs_iter(T.EA, iter_shrink_cb);
+			if (iter_calls - before != nb - sh_by)
+				fail("typed-iter", "%llu callbacks for %zu records of which the callback "
+				    "removed the last %zu", (unsigned long long)(iter_calls - before), nb, sh_by);
+			for (i = 0; i < nb - sh_by; i++)
+				T.m[i].gen = (uint16_t)(T.m[i].gen + 1);
+			tm_setn(&T, nb - sh_by);
+			T.excused = 0;
+			c_iter++;
+			c_iter_shrink++;
 		} else if (op < 84) {
 			uint64_t before = iter_calls;
 
@@ -1122,12 +1162,12 @@ tchecked:
 	if (failed)
 		return;
 	printf("R ok sig=%016llx nt=%d typed_ops=%zu typed_grow=%llu "
-	    "typed_shrink_realloc=%llu typed_iter=%llu typed_export=%llu "
+	    "typed_shrink_realloc=%llu typed_iter=%llu typed_iter_shrinking=%llu typed_export=%llu "
 	    "typed_alloc_refused=%llu typed_oom_failed_unchanged=%llu "
 	    "typed_oom_shrink_took_effect=%llu typed_oom_init_null_no_leak=%llu\n",
 	    (unsigned long long)sig, (c_grow >= 1 && c_shrink >= 1), nops,
 	    (unsigned long long)c_grow, (unsigned long long)c_shrink,
-	    (unsigned long long)c_iter, (unsigned long long)c_export,
+	    (unsigned long long)c_iter, (unsigned long long)c_iter_shrink, (unsigned long long)c_export,
 	    (unsigned long long)ic_refused, (unsigned long long)ic_failed,
 	    (unsigned long long)ic_absorbed, (unsigned long long)ic_initfail);
 }
